@@ -89,9 +89,14 @@ def resImage (verbose : Bool) : Res Image → String
   | .err _ => "ERR"
   | .panic _ => "PANIC"
 
-/-- index selection for huge tables: everything when `n ≤ k`, else the first `k-2` and the last 2 -/
+/-- which of `n` entities are observed when there are more than `k`: the first `k/2`, the last
+    two, and `k - k/2 - 2` positions spread evenly over the middle -/
 def sel (n k : Nat) : List Nat :=
-  if n ≤ k then List.range n else List.range (k - 2) ++ [n - 2, n - 1]
+  if n ≤ k then List.range n else
+    let a := k / 2
+    let b := k - a - 2
+    let mid := (List.range b).map (fun i => a + ((i + 1) * (n - a - 2)) / (b + 1))
+    (List.range a ++ mid ++ [n - 2, n - 1]).eraseDups
 
 def maxRenderPixels : Nat := 1048576
 
